@@ -226,7 +226,12 @@ def join_byte_intervals(
     if destination.address is not None:
         address = destination.address
     address += destination.size
-    last_block = max(destination.blocks, key=lambda b: b.offset, default=None)
+    # The "last" block is the one reaching furthest: padding is appended
+    # after it, and the padding block must not overlap any existing block.
+    def block_end_key(b):
+        return (b.offset + b.size, b.offset)
+
+    last_block = max(destination.blocks, key=block_end_key, default=None)
     last_module = last_block.module if last_block is not None else None
 
     def insert_padding(size):
@@ -309,7 +314,7 @@ def join_byte_intervals(
         deltas[interval] = len(destination.contents)
         symexprs[interval] = dict(interval.symbolic_expressions)
         last_block = max(
-            interval.blocks, default=last_block, key=lambda b: b.offset
+            interval.blocks, default=last_block, key=block_end_key
         )
         if last_block is not None and last_block.module is not None:
             last_module = last_block.module
